@@ -22,8 +22,9 @@ Proof.
     exfalso. pose proof (Hinc r (ppf u) Hr H). lra.
 Qed.
 
-(* the reflected form used by Exponential (dim 2): its "ppf" is a right inverse of the survival function
-   1 - cdf on (0, 1]; the events { ppf U <= r } and { 1 - U <= cdf r } coincide, and 1 - U is uniform too *)
+(* reflected form (a "ppf" that is a right inverse of the survival function 1 - cdf on (0, 1], as
+   Exponential.spectral_rad_ppf in 2-D was before /repo commit 1a6a5cf): the events { ppf U <= r } and
+   { 1 - U <= cdf r } coincide, and 1 - U is uniform too, so the sampled radii have the same distribution *)
 Theorem inversion_sampling_reflected (cdf ppf : R -> R) :
   (forall r s, 0 <= r -> r < s -> cdf r < cdf s) ->
   (forall u, 0 < u <= 1 -> 0 <= ppf u /\ cdf (ppf u) = 1 - u) ->
@@ -103,10 +104,10 @@ Section Pairs.
     (exp1_ppf RO l u <= r <-> u <= exp1_cdf RO l r).
   Proof. intros Hl. apply inversion_sampling; [apply exp1_increasing | apply exp1_inverse]; exact Hl. Qed.
 
-  (* ---- Exponential, dim 2 (reflected: the code's ppf inverts 1 - cdf) *)
+  (* ---- Exponential, dim 2 *)
   Lemma exp2_cdf_eq l r : exp2_cdf RO l r = 1 - 1 / sqrt (1 + (r * l) * (r * l)).
   Proof. unfold exp2_cdf. rewrite npow2. reflexivity. Qed.
-  Lemma exp2_ppf_eq l u : exp2_ppf RO l u = sqrt (1 / (u * u) - 1) / l.
+  Lemma exp2_ppf_eq l u : exp2_ppf RO l u = sqrt (1 / ((1 - u) * (1 - u)) - 1) / l.
   Proof. unfold exp2_ppf. rewrite npow2. reflexivity. Qed.
   Lemma exp2_increasing l : 0 < l -> forall r s, 0 <= r -> r < s -> exp2_cdf RO l r < exp2_cdf RO l s.
   Proof.
@@ -121,26 +122,27 @@ Section Pairs.
     { unfold Rdiv. rewrite !Rmult_1_l. apply Rinv_lt_contravar; [apply Rmult_lt_0_compat; lra | exact H3]. }
     lra.
   Qed.
-  Lemma exp2_inverse l : 0 < l -> forall u, 0 < u <= 1 ->
-    0 <= exp2_ppf RO l u /\ exp2_cdf RO l (exp2_ppf RO l u) = 1 - u.
+  Lemma exp2_inverse l : 0 < l -> forall u, 0 <= u < 1 ->
+    0 <= exp2_ppf RO l u /\ exp2_cdf RO l (exp2_ppf RO l u) = u.
   Proof.
     intros Hl u Hu. rewrite exp2_cdf_eq, exp2_ppf_eq.
-    assert (Huu : 0 < u * u) by (apply Rmult_lt_0_compat; lra).
-    assert (Hq : 0 <= 1 / (u * u) - 1).
-    { assert (u * u <= 1) by (replace 1 with (1 * 1) by ring; apply Rmult_le_compat; lra).
-      assert (1 <= 1 / (u * u)).
+    set (v := 1 - u). assert (Hv : 0 < v <= 1) by (unfold v; lra).
+    assert (Hvv : 0 < v * v) by (apply Rmult_lt_0_compat; lra).
+    assert (Hq : 0 <= 1 / (v * v) - 1).
+    { assert (v * v <= 1) by (replace 1 with (1 * 1) by ring; apply Rmult_le_compat; lra).
+      assert (1 <= 1 / (v * v)).
       { unfold Rdiv. rewrite Rmult_1_l. rewrite <- Rinv_1 at 1. apply Rinv_le_contravar; lra. }
       lra. }
     split.
     - apply Rmult_le_pos; [apply sqrt_pos | left; now apply Rinv_0_lt_compat].
-    - replace (sqrt (1 / (u * u) - 1) / l * l) with (sqrt (1 / (u * u) - 1)) by (field; lra).
+    - replace (sqrt (1 / (v * v) - 1) / l * l) with (sqrt (1 / (v * v) - 1)) by (field; lra).
       rewrite sqrt_sqrt by exact Hq.
-      replace (1 + (1 / (u * u) - 1)) with ((1 / u) * (1 / u)) by (field; lra).
-      rewrite sqrt_square by (left; apply Rdiv_lt_0_compat; lra). field. lra.
+      replace (1 + (1 / (v * v) - 1)) with ((1 / v) * (1 / v)) by (field; lra).
+      rewrite sqrt_square by (left; apply Rdiv_lt_0_compat; lra). unfold v. field. lra.
   Qed.
-  Theorem exp2_inversion l : 0 < l -> forall u r, 0 < u <= 1 -> 0 <= r ->
-    (exp2_ppf RO l u <= r <-> 1 - u <= exp2_cdf RO l r).
-  Proof. intros Hl. apply inversion_sampling_reflected; [apply exp2_increasing | apply exp2_inverse]; exact Hl. Qed.
+  Theorem exp2_inversion l : 0 < l -> forall u r, 0 <= u < 1 -> 0 <= r ->
+    (exp2_ppf RO l u <= r <-> u <= exp2_cdf RO l r).
+  Proof. intros Hl. apply inversion_sampling; [apply exp2_increasing | apply exp2_inverse]; exact Hl. Qed.
 
   (* ---------- sample_sphere: the generated directions are unit vectors *)
   Theorem sphere2_unit a : cos a * cos a + sin a * sin a = 1.
